@@ -2,6 +2,11 @@ NOTES = ("All checks: ./check <ID> --tier quick|thorough, VERIF_SEED respected, 
          "fix: commits in /repo are listed in known_findings.json as fixed entries.")
 NOT_APPLICABLE = {}
 CHECKS = {
+ "C20": {
+  "technique": "Hypothesis property-based testing with an independent formatter oracle (the harness invokes black with a Mode it builds itself from the generated pyproject options) and an idempotence side-check that attributes instabilities to the formatter",
+  "text": "Generated clean files under generated [tool.black] options receive change sets that force re-wrapping; the result must be a fixed point of black under the same options, unless black itself is not idempotent on the text handed to the whole-file step (captured), which is counted separately. Unclean files must not be re-formatted as a whole (bytes outside all arguments unchanged). Exploration.",
+  "note": "black 26.5.1; the in-process driver runs with the project directory as cwd like pytest does (black resolves its configuration from the cwd)",
+ },
  "C03": {
   "technique": "Hypothesis property-based testing with a masked byte-equality / masked syntax-tree oracle over generated adversarial layouts",
   "text": "Generated programs are decorated outside the arguments (non-ASCII text left of the call, `;`-joined sites, nested calls, decorators, `snapshot(` inside strings and comments, tabs, CRLF, clean/unclean, black / no black / format-command) and run with any of the 16 approved sets; everything outside the argument spans of the sites that the category model allows to change must be byte-identical (or tree-identical when whole-file formatting applies), up to the documented import lines. Exploration.",
